@@ -10,6 +10,9 @@ Stage 3 (direct search): object roots mutated at byte, JSON and directory level,
   address-space limit; oracle = panic / abort / timeout / memory blow-up / repository
   validation not reaching the remaining objects.  Failures inside a class of
   Model/KnownC17.v (decided by the Coq classifier on the abstracted input) are known findings.
+  The classes repaired in /repo (blank-id b116ae5, version-gap 719e6a5 + f842f41, wide-padding
+  d5a9e2d) are still generated, as must-pass inputs (family "regress"): any failure there, or a
+  verdict that does not report the problem within the linear error budget, is a violation.
 """
 import base64
 import concurrent.futures
@@ -37,10 +40,10 @@ AS_LIMIT = 2 << 30           # address space of the child
 U32 = 4294967295
 IMPORTS = ["Base.Bytes", "Model.VersionNum", "Model.VCode", "Model.KnownC17", "Corr.CheckVCode"]
 
-NEED = {"blank-id": {"blank-id"}, "unwrap-none": {"empty-manifest-entry"}, "sub-overflow": {"empty-pps-debug"},
-        "fmt-width": {"wide-padding"}, "timeout": {"version-gap", "quadratic-path"}, "oom": {"version-gap", "quadratic-path"},
-        "arith-overflow": {"version-gap"}, "unwrap-unit": {"uri-colon-segment"}}
-SLUGS = ["uri-colon-segment", "blank-id", "version-gap", "empty-manifest-entry", "empty-pps-debug", "wide-padding", "quadratic-path"]
+# failure kind -> known classes that can explain it (a kind without entry is never excused)
+NEED = {"unwrap-none": {"empty-manifest-entry"}, "sub-overflow": {"empty-pps-debug"},
+        "timeout": {"quadratic-path"}, "oom": {"quadratic-path"}, "unwrap-unit": {"uri-colon-segment"}}
+MAX_LISTED = 100             # errors per version key the repaired validate_version_nums may record (Props/C17.v C17_vnums_cost_linear)
 
 
 # --------------------------------------------------------------------------- JSON trees with duplicate keys
@@ -286,7 +289,7 @@ def features(obj):
     """per inventory.json of an object root: what the Coq classifiers are evaluated on"""
     feats = []
     for d, p in inventory_files(obj):
-        f = {"where": d or "root", "id": None, "keys": None, "wide": [], "lens": None, "path": (0, 0), "ainv": None, "uris": []}
+        f = {"where": d or "root", "id": None, "keys": None, "lens": None, "path": (0, 0), "ainv": None, "uris": []}
         try:
             data = open(p, "rb").read()
         except OSError:
@@ -309,10 +312,6 @@ def features(obj):
                 if pv:
                     f["keys"].append(pv[0])
                     vnums.append(pv)
-        hv = vparse(first(t, "head"))
-        if hv:
-            vnums.append(hv)
-        f["wide"] = [(n, w) for n, w in vnums if w > 60000]
         best = (0, 0)
 
         def see_path(s):
@@ -370,8 +369,6 @@ def fallback_features(data, f):
         pv = vparse(m.group(1).decode())
         if pv:
             keys.append(pv[0])
-            if pv[1] > 60000:
-                f["wide"].append(pv)
     if keys:
         f["keys"] = keys
     if re.search(rb'"[0-9a-fA-F]{32,128}"\s*:\s*\[\s*\]', data):
@@ -442,15 +439,8 @@ def class_terms(feats, failure_kinds, dbg):
     for k in failure_kinds:
         need |= NEED.get(k, set())
     for f in feats:
-        if "blank-id" in need and f["id"] is not None:
-            out.append(("blank-id", "known_blank_id %s" % coq_str(short(f["id"]))))
-        if "version-gap" in need and f["keys"]:
-            out.append(("version-gap", "known_gap_nums %s" % coq_list(str(n) for n in sorted(set(f["keys"])))))
         if "empty-manifest-entry" in need and f["lens"] is not None:
             out.append(("empty-manifest-entry", "known_empty_entry %s" % coq_list(str(min(n, 2)) for n in f["lens"])))
-        if "wide-padding" in need:
-            for n, w in f["wide"]:
-                out.append(("wide-padding", "known_wide %d %d" % (n, w)))
         if "quadratic-path" in need and f["path"][0] > 0:
             out.append(("quadratic-path", "known_quadratic %d %d" % f["path"]))
         if "uri-colon-segment" in need:
@@ -681,7 +671,8 @@ CREATED = ["2021-01-01T00:00:00Z", "", "2021", "2021-01-01", "2021-01-01T00:00:0
            "262143-12-31T23:59:59Z", "-262144-01-01T00:00:00Z", "2021-01-01T00:00:00+24:00", "1970-01-01T00:00:00+23:59",
            "2021-01-01T00:00:60Z", "２０２１-01-01T00:00:00Z"]
 VKEYS = ["v1", "v2", "v3", "v01", "v02", "v001", "v0", "v00", "v", "V1", "1", "", "v-1", "v1 ", "v+1", "v1.0", "v4", "v7", "v10",
-         "v4294967296", "v99999999999", "v00000000000000000000000000000001", "v١", "vv1"]
+         "v4294967296", "v99999999999", "v00000000000000000000000000000001", "v١", "vv1",
+         "v4294967295", "v4294967294", "v400000000", "v104", "v0004294967295", "v" + "0" * 66000 + "3"]
 
 
 def g_user(rng):
@@ -754,7 +745,7 @@ def fam_grammar(rng, obj):
 
 ABSURD = {
     "head": ["v0", "v00", "v4294967295", "v4294967296", "v99999999999", "v01", "v2", "v9", "v", "V1", "1", "", "v-1", "v1 ", 5, None,
-             "v0000000001", "v000000000000000000001"],
+             "v0000000001", "v000000000000000000001", "v" + "0" * 65536 + "1", "v" + "0" * 70000 + "7"],
     "id": ["", " ", "a" * (1 << 20), "\u0001", "urn:x", "http://[::1", "%zz", "a:b:c:d", 5, None, [], "💾"],
     "type": ["", "https://ocfl.io/1.1/spec/#inventory", "https://ocfl.io/9.9/spec/#inventory", "x", 5, "https://ocfl.io/1.0/spec/#inventory "],
     "digestAlgorithm": ["sha256", "sha512", "md5", "sha1", "blake2b-512", "sha512/256", "SHA512", "", "sha-512", 5],
@@ -771,7 +762,8 @@ ABSURD = {
                O([("md5", O([("D" * 32, ["v1/content/x"]), ("d" * 32, ["v1/content/x"])]))])],
 }
 ABSURD_VKEY = ["v0", "v00", "v01", "v02", "v2", "v3", "v5", "v9", "v1000", "v200000", "v", "", "x", "V1", "v4294967296",
-               "v99999999999", "v0001", "v1 "]
+               "v99999999999", "v0001", "v1 ", "v4294967295", "v4294967294", "v400000000", "v0004294967295", "v102", "v103", "v104",
+               "v105", "v" + "0" * 65536 + "2", "v" + "0" * 70000 + "9"]
 ABSURD_DIGEST = ["", "zz", "{U}", "{S}", "{L}", "g" * 128, "{O}"]
 GENERIC = [5, -1, 1e308, Raw("1e999"), Raw("123456789012345678901234567890"), True, None, "", "x", [], O(),
            Raw("[" * 200 + "]" * 200), Raw('{"a":' * 200 + "1" + "}" * 200), Raw('"\\ud800"'), Raw('"\\u0000"')]
@@ -1043,7 +1035,24 @@ def bad_body(rng, good):
     return O([(k, (5 if k == "state" else v)) for k, v in b])
 
 
+GAP_KEYS = [["v1", "v101"], ["v1", "v102"], ["v1", "v103"], ["v101"], ["v102"], ["v100"], ["v1", "v2", "v103", "v204", "v306"],
+            ["v1", "v400000000"], ["v400000000"], ["v1", "v4294967294"], ["v1", "v4294967295"], ["v4294967295"], ["v0004294967295"],
+            ["v1", "v2", "v4294967294", "v4294967295"], ["v001", "v200"], ["v001", "v102"], ["v1", "v50", "v150", "v300", "v4000"],
+            ["v4294967295", "v1"], ["v103", "v1"], ["v1", "v00103", "v4294967295"]]
+
+
 def gen_vkeys(rng):
+    r = rng.random()
+    if r < 0.22:
+        # gaps around MAX_MISSING_VERSIONS_LISTED (serde.rs:1313) and numbers up to u32::MAX
+        if rng.random() < 0.75:
+            return list(rng.choice(GAP_KEYS))
+        a = rng.randint(1, 3)
+        g = rng.choice([98, 99, 100, 101, 102, 1000, 10 ** 6, 4 * 10 ** 9])
+        ks = ["v%d" % i for i in range(1, a + 1)] + ["v%d" % min(U32, a + 1 + g)]
+        if rng.random() < 0.4:
+            ks.append("v%d" % min(U32, a + 1 + g + rng.choice([1, 2, 101, 102])))
+        return list(dict.fromkeys(ks))
     r = rng.random()
     if r < 0.2:
         k = rng.randint(1, 5)
@@ -1273,9 +1282,15 @@ def fam_cross(rng, dest):
                           "desc": {"head": head, "root_alg": ralg, "weird": weird}}
 
 
-# ---- dedicated members of the known classes (few: some of them run into the time limit)
+# ---- dedicated members of the known classes (few: some of them run into the time limit) and of the
+# ---- classes repaired in /repo (family "regress": must pass)
 
-def fam_known(rng, obj, which):
+REGRESS = ("blank-id", "version-gap", "wide-padding")
+GAP_ARGS = ["v400000000", "v4294967295", "v00400000000", "v0004294967295", "v4294967294", "v1000000"]
+WIDE_ARGS = [65536, 70000, 1 << 20]
+
+
+def fam_known(rng, obj, which, arg=None):
     t = jload_pairs(open(os.path.join(obj, "inventory.json"), "rb").read())
     t = copy.deepcopy(t)
 
@@ -1288,9 +1303,9 @@ def fam_known(rng, obj, which):
         setk("id", "")
     elif which == "version-gap":
         body = vers[-1][1]
-        vers.append((rng.choice(["v400000000", "v4294967295", "v00400000000"]), copy.deepcopy(body)))
+        vers.append((arg or rng.choice(GAP_ARGS), copy.deepcopy(body)))
     elif which == "wide-padding":
-        vers[0] = ("v" + "0" * rng.choice([65536, 70000, 1 << 20]) + "1", vers[0][1])
+        vers[0] = ("v" + "0" * int(arg or rng.choice(WIDE_ARGS)) + "1", vers[0][1])
     elif which == "quadratic-path":
         st = first(vers[0][1], "state")
         st[0] = (st[0][0], ["/".join(["a"] * 150000)])
@@ -1309,7 +1324,27 @@ def fam_known(rng, obj, which):
         for _, body in vers:
             first(body, "state").append((dgx, ["ghost.txt"]))
     set_inventory(obj, jbytes(t), rng)
-    return "known/" + which
+    return ("regress/" if which in REGRESS else "known/") + which
+
+
+def regress_expect(r):
+    """model-free oracle for a must-pass member of a repaired class: the problem is reported as
+    validation errors of the object, within the linear budget; None or a message"""
+    vh, cli = r["vh"], r["cli"]
+    which = r["kind"].split("/", 1)[1]
+    if vh["kind"] != "verdict" or vh.get("nerr", 0) < 1:
+        return "a verdict with validation errors for the object (harness: %s)" % vh["kind"]
+    if cli["kind"] != "exit" or cli.get("rc") != 2:
+        return "the release CLI reports an invalid object (exit status 2), observed %r" % (cli,)
+    obj_codes = vh["codes"].get("object", {})
+    if which == "blank-id" and obj_codes.get("E037", 0) < 1:
+        return "E037 for the blank id, observed codes %r" % (obj_codes,)
+    if which == "version-gap":
+        nkeys = r.get("nkeys", 8)
+        e010 = sum(c.get("E010", 0) for c in vh["codes"].values())
+        if e010 < 1 or e010 > (MAX_LISTED * nkeys + 1) * max(1, len(vh["codes"])):
+            return "between 1 and %d E010 errors per inventory with %d version keys, observed %d" % (MAX_LISTED * nkeys + 1, nkeys, e010)
+    return None
 
 
 # --------------------------------------------------------------------------- bases
@@ -1395,8 +1430,8 @@ def build_case(spec, dest):
         kind, corr = fam_versions(rng, obj)
     elif fam == "header":
         kind, corr = fam_header(rng, obj)
-    elif fam == "known":
-        kind = fam_known(rng, obj, spec["which"])
+    elif fam in ("known", "regress"):
+        kind = fam_known(rng, obj, spec["which"], spec.get("arg"))
     elif fam == "combo":
         kinds = []
         for _ in range(rng.randint(2, 4)):
@@ -1426,6 +1461,10 @@ def snapshot_small(obj, limit=40000):
     return out
 
 
+def fam_is_regress(spec):
+    return spec["family"] == "regress"
+
+
 def do_case(spec):
     dest = os.path.join(spec["tmp"], "case-%06d" % spec["idx"])
     res = {"idx": spec["idx"], "family": spec["family"], "base": spec.get("base_name")}
@@ -1438,6 +1477,9 @@ def do_case(spec):
         res["vh"] = run_vh(spec["vh"], dest, {"cmd": "validate_object_at", "path": "obj", "fixity": fixity})
         res["cli"] = run_cli(spec["rocfl"], dest, ["-p", "obj"] + ([] if fixity else ["-n"]))
         bad = failed(res["vh"]) or failed(res["cli"])
+        if fam_is_regress(spec):
+            t = jload_pairs(open(os.path.join(obj, "inventory.json"), "rb").read())
+            res["nkeys"] = len(first(t, "versions") or [])
         if bad or corr is not None:
             res["feats"] = features(obj)
         if bad:
@@ -1531,15 +1573,23 @@ def make_specs(ctx, bases, libs, vh, rocfl):
             s["base_name"], s["base"] = base
         s.update(kw)
         specs.append(s)
-    known = ["blank-id", "version-gap", "wide-padding", "quadratic-path", "empty-manifest-entry", "uri-colon-segment"]
+    known = ["quadratic-path", "empty-manifest-entry", "uri-colon-segment"]
     if not ctx.quick():
-        known = known + ["version-gap", "version-gap", "wide-padding", "quadratic-path", "blank-id"]
+        known = known + ["quadratic-path"]
     one_version = [b for b in bases if b[0] == "fx:valid/minimal_one_version_one_file"] or [("lib-sha512", libs["lib-sha512"])]
     for w in known:
-        if w == "wide-padding":           # a single version: no E013 that would end validation before the number is printed
-            add("known", one_version[0], which=w)
-        else:
-            add("known", ("lib-sha512", libs["lib-sha512"]) if w != "blank-id" or rng.random() < 0.5 else ("lib-sha256", libs["lib-sha256"]), which=w)
+        add("known", ("lib-sha512", libs["lib-sha512"]), which=w)
+    # the repaired classes: every dedicated member, on two bases each (must pass)
+    lib = lambda: (lambda nm: (nm, libs[nm]))(rng.choice(["lib-sha512", "lib-sha256", "lib-padded"]))
+    for _ in range(2 if ctx.quick() else 6):
+        add("regress", lib(), which="blank-id")
+    for a in GAP_ARGS:
+        for _ in range(1 if ctx.quick() else 3):
+            add("regress", lib(), which="version-gap", arg=a)
+    for a in WIDE_ARGS:
+        # a single version (no E013 that ends validation before the number is printed) and a library object
+        add("regress", one_version[0], which="wide-padding", arg=a)
+        add("regress", lib(), which="wide-padding", arg=a)
     for b in bases:
         add("pristine", b)
     for fam in ("bytes", "grammar", "edit", "structure", "combo"):
@@ -1563,7 +1613,7 @@ def pmap(fn, items, workers):
 
 
 def spec_public(s):
-    return {k: s[k] for k in ("family", "seed", "base_name", "which", "allow_deep") if k in s}
+    return {k: s[k] for k in ("family", "seed", "base_name", "which", "arg", "allow_deep") if k in s}
 
 
 def evaluate(ctx, specs, results):
@@ -1607,7 +1657,7 @@ def evaluate(ctx, specs, results):
         by.setdefault(idx, []).append((tag, term, v))
 
     stats = {"families": {}, "kinds": {}, "vh_outcomes": {}, "cli_outcomes": {}, "corr_checked": 0, "corr_ok": 0,
-             "known_hits_by_kind": {}, "driver_errors": 0, "predicted_panics_confirmed": 0}
+             "known_hits_by_kind": {}, "driver_errors": 0, "predicted_panics_confirmed": 0, "regress": {}, "regress_max_t": {}}
     spec_by = {s["idx"]: s for s in specs}
     for r in results:
         s = spec_by[r["idx"]]
@@ -1631,6 +1681,17 @@ def evaluate(ctx, specs, results):
         evs = by.get(r["idx"], [])
         msg = failed(r["vh"]) or failed(r["cli"])
         explained = True
+        if r["family"] == "regress":
+            stats["regress"][r["kind"]] = stats["regress"].get(r["kind"], 0) + 1
+            stats["regress_max_t"][r["kind"]] = max(stats["regress_max_t"].get(r["kind"], 0), r["vh"].get("t", 0), r["cli"].get("t", 0))
+            want = None if msg else regress_expect(r)
+            if msg or want:
+                # the regression test of a fix commit: never excused by a known class
+                ctx.violation("impl-violation", {
+                    "input": spec_public(s), "mutation": r["kind"], "files": r.get("files"),
+                    "observed": {"harness_debug": r["vh"], "cli_release": r["cli"]},
+                    "expected": "repaired class %s: %s" % (r["kind"], want or ("a verdict; observed: " + msg))})
+                continue
         if msg:
             # every failure kind must be covered by a classifier that holds on this input and is a recorded known finding
             need = NEED
@@ -1670,7 +1731,7 @@ def run_repos(ctx, specs, results, bases, libs, vh, rocfl, stats):
     rng = ctx.rng
     ok_members = []
     for r in results:
-        if "driver_error" in r or r["family"] in ("pristine", "known"):
+        if "driver_error" in r or r["family"] in ("pristine", "known", "regress"):
             continue
         if failed(r["vh"]) or failed(r["cli"]) or r["vh"].get("t", 0) > 3 or "path-max" in r["kind"] or "many-files" in r["kind"]:
             continue
@@ -1689,12 +1750,17 @@ def run_repos(ctx, specs, results, bases, libs, vh, rocfl, stats):
             b = rng.choice(good)
             members.insert(pos, {"family": "pristine", "seed": 0, "base_name": b[0], "base": b[1]})
         rspecs.append({"idx": i, "members": members, "tmp": os.path.join(ctx.tmp, "repos"), "vh": vh, "rocfl": rocfl})
-    # one repository with a member of the blank-id class: the panic takes the whole repository run down
-    poisoned = {"idx": len(rspecs), "tmp": os.path.join(ctx.tmp, "repos"), "vh": vh, "rocfl": rocfl, "poisoned": True,
-                "members": [{"family": "pristine", "seed": 0, "base_name": good[0][0], "base": good[0][1]},
-                            {"family": "known", "which": "blank-id", "seed": 1, "base_name": "lib-sha512", "base": libs["lib-sha512"]},
-                            {"family": "pristine", "seed": 0, "base_name": good[-1][0], "base": good[-1][1]}]}
-    rspecs.append(poisoned)
+    # one repository with members of the repaired classes between untouched objects: before b116ae5 the panic at
+    # the blank id took the whole repository run down; now every object must get its result (judged like the others)
+    lib512 = {"base_name": "lib-sha512", "base": libs["lib-sha512"]}
+    rspecs.append({"idx": len(rspecs), "tmp": os.path.join(ctx.tmp, "repos"), "vh": vh, "rocfl": rocfl,
+                   "members": [{"family": "pristine", "seed": 0, "base_name": good[0][0], "base": good[0][1]},
+                               dict(lib512, family="regress", which="blank-id", seed=1),
+                               dict(lib512, family="regress", which="version-gap", arg="v4294967295", seed=2),
+                               {"family": "pristine", "seed": 0, "base_name": good[len(good) // 2][0], "base": good[len(good) // 2][1]},
+                               dict(lib512, family="regress", which="wide-padding", arg=70000, seed=3),
+                               dict(lib512, family="regress", which="version-gap", arg="v400000000", seed=4),
+                               {"family": "pristine", "seed": 0, "base_name": good[-1][0], "base": good[-1][1]}]})
     os.makedirs(os.path.join(ctx.tmp, "repos"), exist_ok=True)
     out = pmap(do_repo, rspecs, min(common.NPROC, 8))
     known_ids = {k["id"] for k in ctx.known}
@@ -1708,14 +1774,6 @@ def run_repos(ctx, specs, results, bases, libs, vh, rocfl, stats):
                   "observed": {"harness_debug": r["vh"] if "objects" not in r["vh"] else dict(r["vh"], objects=r["vh"]["objects"][:50]),
                                "cli_release": r["cli"]}}
         msg = failed(r["vh"]) or failed(r["cli"])
-        if rs.get("poisoned"):
-            pk = set(failure_kinds(r["vh"]) + failure_kinds(r["cli"]))
-            if msg and pk <= {"blank-id"} and "blank-id" in known_ids:
-                ctx.known_hit("blank-id")
-                stats["repos"]["poisoned_repo"] = "validate_repo panicked at the blank-id object: the remaining objects were not validated (known finding)"
-            elif msg:
-                ctx.violation("impl-violation", dict(detail, expected="every object of the repository gets a result; observed: " + msg))
-            continue
         ctx.count(("repo", r["idx"], r["vh"]["kind"], r["cli"].get("rc")), nontrivial=True,
                   sample={"repository_objects": len(r.get("roots", [])), "harness": r["vh"]["kind"], "cli": r["cli"]})
         if msg:
@@ -1765,7 +1823,8 @@ def run(ctx):
         raise common.BuildError("C17 driver: %d cases could not be built/run" % stats["driver_errors"])
     # the pristine valid objects must validate cleanly (sanity of the set-up, not of the property)
     ctx.coverage["traces_validated_against_impl"] = stats["corr_checked"]
-    ctx.coverage["distribution"] = {k: stats[k] for k in ("families", "vh_outcomes", "cli_outcomes", "known_hits_by_kind", "repos")
+    ctx.coverage["distribution"] = {k: stats[k] for k in ("families", "vh_outcomes", "cli_outcomes", "known_hits_by_kind", "repos",
+                                                          "regress", "regress_max_t")
                                     if k in stats}
     ctx.coverage["mutation_kinds"] = stats["kinds"]
     ctx.coverage["correspondence"] = {"checked": stats["corr_checked"], "agree": stats["corr_ok"],
@@ -1778,7 +1837,9 @@ def run(ctx):
                            "known class by the Coq classifier of Model/KnownC17.v evaluated on features extracted from the input by the driver")
     return common.finish_with_proof(
         ctx, proof,
-        rule="object roots = official fixtures and library-written objects, mutated (random bytes, grammar-based JSON with duplicate keys/"
+        rule="(members of the classes repaired in /repo - blank id, version gaps up to u32::MAX, padding wider than 65535 - are must-pass "
+             "inputs: E037 / at most 100 E010 per version key / a verdict, else violation) "
+             "object roots = official fixtures and library-written objects, mutated (random bytes, grammar-based JSON with duplicate keys/"
              "deep nesting/huge numbers/lone surrogates/1 MB strings, single edits of every JSON node with field-specific absurd values, "
              "directory-structure edits: missing/extra/empty/special files, deep trees, odd version directories) plus three families whose "
              "abstraction is exact (versions block, header fields, cross-inventory); each validated by debug harness and release CLI under "
